@@ -39,17 +39,22 @@ def r1_hot_paths_subscript(ctx):
     oc = A.function_class(repo)
     rw = A.rewriter(repo)
     ctx.touch(gen)
-    # (a) the call template
-    name, sk, node = call_template(ctx)
-    subs = [n for n in ast.walk(sk.tree) if isinstance(n, ast.Subscript) and dotted(n.value) == "OVLD.map"]
-    bad = [n for n in ast.walk(sk.tree) if isinstance(n, ast.Call) and isinstance(n.func, ast.Attribute) and n.func.attr in RESOLUTION_METHODS]
-    ctx.ob(
-        f"{gen.module.name}.{name}:subscript",
-        f"{gen.module.rel}:{node.lineno}",
-        "the generated entry point obtains the method by subscripting OVLD.map (a dict hit never reaches resolution code)",
-        bool(subs) and not bad,
-        f"the generated entry point calls `{short(bad[0], 60)}`: every call re-enters resolution even for a combination already resolved" if bad else "no OVLD.map[...] subscript in the call template",
-    )
+    # (a) the generated entry point (abstractly executed; the call template is read as a fallback)
+    def _tpl(ctx_):
+        name, sk, node = call_template(ctx)
+        subs = [n for n in ast.walk(sk.tree) if isinstance(n, ast.Subscript) and dotted(n.value) == "OVLD.map"]
+        bad = [n for n in ast.walk(sk.tree) if isinstance(n, ast.Call) and isinstance(n.func, ast.Attribute) and n.func.attr in RESOLUTION_METHODS]
+        ctx.ob(
+            f"{gen.module.name}.{name}:subscript",
+            f"{gen.module.rel}:{node.lineno}",
+            "the generated entry point obtains the method by subscripting OVLD.map (a dict hit never reaches resolution code)",
+            bool(subs) and not bad,
+            f"the generated entry point calls `{short(bad[0], 60)}`: every call re-enters resolution even for a combination already resolved" if bad else "no OVLD.map[...] subscript in the call template",
+        )
+
+    from .c03 import _with_fallback
+
+    _with_fallback(ctx, ("hand-over",), _tpl)
     # (b) the node the rewriter emits for recurse / call_next (abstract execution)
     from .rewriter import law_table_subscript
 
